@@ -617,6 +617,29 @@ def search_c05(ctx):
                 'unit %s::%s: the run-time registry / Unit trait publishes the labels %r, the declaration says %r' % (module, name, got, want),
                 line='unit %s %s registry=%r declared=%r' % (module, name, got, want), failing_input=True,
                 cmd=bin_path('reg', False, 'fl'), tag='registry-labels'))
+        # the numbers: what `<unit as Conversion<f64>>::coefficient()` / `constant(op)` publish against the exact
+        # value of the declaration (correctly rounded by Fraction → float); the sign of a zero is not a value
+        if len(f) >= 10 and want is not None and got == want:
+            import struct as _st
+            decl = next((u for q in t['quantities'] if q['module'] == module for u in q['units'] if u['name'] == name), None)
+            if decl is not None:
+                def f64(h):
+                    return _st.unpack('>d', bytes.fromhex(h))[0]
+                exp_c = float(F(*decl['coef_exact']))
+                exp_k = float(F(*decl['cons_exact'])) if decl.get('cons_exact') else 0.0
+                bad = []
+                for what, h, e in (('coefficient()', f[7], exp_c), ('constant(Sub)', f[8], exp_k), ('constant(Add)', f[9], exp_k)):
+                    try:
+                        v = abs(f64(h))
+                    except (ValueError, _st.error):
+                        continue
+                    if not (abs(v - e) <= 2.5e-15 * max(abs(e), abs(v))):
+                        bad.append('%s publishes %r, the declaration says %r' % (what, v, e))
+                if bad:
+                    ctx.problems.append(Problem(
+                        'property-fails', 'unit %s::%s: %s' % (module, name, '; '.join(bad)),
+                        line='unit %s %s published=%s declared coef=%s cons=%s' % (module, name, ' '.join(f[7:10]), decl['coef_exact'], decl.get('cons_exact')),
+                        failing_input=True, cmd=bin_path('reg', False, 'fl'), tag='registry-values'))
     for m, u in [tuple(x) for x in t.get('compose', {}).get('misnamed', [])]:
         if (m, u) not in misn:
             ctx.problems.append(Problem('property-fails', 'unit %s::%s: its identifier reads as a composition of another dimension than the quantity has' % (m, u),
